@@ -27,6 +27,7 @@ theorem Inv.post_step {cfg : Cfg} {s : St} {d d' : Disk} (h : Inv cfg s d) {j : 
     ⟨j, hj, hnr⟩ (fun hb' => by
       have : pc'.beforeCommit = true := hb'
       rw [hnb] at this; cases this)
+    (fun j0 h0 => by rw [hj] at h0; cases h0; exact ⟨rfl, fun _ _ => hnb⟩)
   have hlv' : lastView cfg d' = lastView cfg d := by unfold lastView; rw [hcm]
   constructor
   · apply h.disk.frame hcm hjr _ htn hmn (fun _ hx => hx) (fun _ hx => hx)
@@ -38,7 +39,9 @@ theorem Inv.post_step {cfg : Cfg} {s : St} {d d' : Disk} (h : Inv cfg s d) {j : 
     exact ht v hlv t ht1
   · exact h.mm.of_same hcm hc
   · intro _
-    exact hb.of_same hcm (Nat.le_refl _) (Nat.le_refl _) (fun hr => ⟨hr, Nat.le_refl _⟩)
+    exact hb.of_same hcm (h.seqHi_step hj rfl rfl rfl rfl (fun hb' => by
+      have : pc'.beforeCommit = true := hb'
+      rw [hnb] at this; cases this)) (Nat.le_refl _) (fun hr => ⟨hr, Nat.le_refl _⟩)
   · exact hpf.1
   · exact hpf.2
   · intro hcr; exact absurd hcr hph
@@ -59,6 +62,7 @@ theorem Inv.post_step {cfg : Cfg} {s : St} {d d' : Disk} (h : Inv cfg s d) {j : 
             · rw [hpt.1] at h3; cases h3)
     · rw [hlv', hlv]
       exact hrm v hlv
+    · exact fun v hv o _ hl => ht v hv o.1 hl
 
 theorem inv_job_rmT_cons {cfg : Cfg} {s : St} {d : Disk} (h : Inv cfg s d) {j : Job}
     (hj : s.job = some j) {n : Nat} {rest : List Nat} (hpc : j.pc = .rmT (n :: rest)) {rot : Bool}
